@@ -15,7 +15,7 @@ def estimators_native(vc):
     rng = np.random.default_rng(seed)
     est = vc.choice("estimator", ["kde", "unimodal"])
     fam = vc.choice("family", ["normal", "skew", "logistic", "left_skew"])
-    n = vc.choice("n", [300, 3000])
+    n = vc.choice("n", [300, 3000, 6000])          # (UnimodalPdf fits a sub-sample first when n >= 4000)
     scale = 10 ** vc.choice("log10_scale", [-6, 0, 3, 6])
     loc = vc.choice("location_in_sigmas", [0.0, 30.0, 1e4, 1e6]) * scale
     base = {"normal": lambda: rng.normal(size=n), "skew": lambda: rng.gamma(4.0, size=n) / 2.0,
